@@ -363,8 +363,8 @@ class HasObservables:
                 signal_types = self.observables[name]
 
             ref = create_weakref(handler)
-            for signal_type in signal_types:
-                self.subscribers[name][signal_type].append(ref)
+            for a_signal_type in signal_types:
+                self.subscribers[name][a_signal_type].append(ref)
 
     def unobserve(self, name: str | All, signal_type: str | All, handler: Callable):
         """Unsubscribe to the Observable <name> for signal_type.
@@ -392,14 +392,14 @@ class HasObservables:
                 signal_types = [
                     signal_type,
                 ]
-            for signal_type in signal_types:
+            for a_signal_type in signal_types:
                 with contextlib.suppress(KeyError):
                     remaining = []
-                    for ref in self.subscribers[name][signal_type]:
+                    for ref in self.subscribers[name][a_signal_type]:
                         if subscriber := ref():  # noqa: SIM102
                             if subscriber != handler:
                                 remaining.append(ref)
-                    self.subscribers[name][signal_type] = remaining
+                    self.subscribers[name][a_signal_type] = remaining
 
     def clear_all_subscriptions(self, name: str | All):
         """Clears all subscriptions for the observable <name>.
